@@ -5,7 +5,7 @@
 From Coq Require Import List String Bool Permutation.
 Import ListNotations.
 From DI Require Import Syntax Tokens Bounds Param Subs Superset Substitute Spec RustSem Group Dispatch Examples ExamplesGroup.
-From DI.proofs Require Import Basics SupersetSound SupersetExact SubstituteProofs BoundsProofs DispatchProofs GroupProofs ParamProofs.
+From DI.proofs Require Import Basics SupersetSound SupersetExact SubstituteProofs BoundsProofs DispatchProofs GroupProofs ParamProofs RustSemProofs.
 
 (* ===================================================================================== *)
 (* C09 -- header generalisation is exact first-order matching                             *)
@@ -242,3 +242,24 @@ Example C13_nonvacuous :
   end.
 Proof. vm_compute. split; reflexivity. Qed.
 Print Assumptions C13_nonvacuous.
+
+(* ===================================================================================== *)
+(* C15 -- ?Sized relaxation is exact.  Coverage of unsized queries is C02_exact_coverage    *)
+(* (queries are arbitrary ground types); what "applies" means for sizedness:                *)
+(* ===================================================================================== *)
+
+(* blocks that did not relax Sized on a parameter never apply to unsized instantiations *)
+Theorem C15_unrelaxed_requires_sized : forall W blk q s p v,
+  applies W blk q = true -> sup (block_header blk) q = Some s ->
+  In p (block_type_params blk) -> relaxed (block_bounds blk) p = false ->
+  lookup (ground_subs s) p = Some (VType v) -> unsized_ty v = false.
+Proof. exact unrelaxed_requires_sized. Qed.
+Print Assumptions C15_unrelaxed_requires_sized.
+
+(* the implementation for an unsized query exists exactly when a member applies to it *)
+Theorem C15_unsized_exact : forall (Q V : Type) keyvals (members : list (member Q V)),
+  grouping_invariant Q V keyvals members ->
+  forall q, main_applies Q V keyvals members q = true <->
+            exists m, In m members /\ m_applies Q V m q = true.
+Proof. exact exact_coverage. Qed.
+Print Assumptions C15_unsized_exact.
